@@ -324,7 +324,7 @@ def run(ctx):
             r.bad("serial|walkdir", "WalkBuilder::build no longer forwards max_depth / same_file_system / follow_links to walkdir", fn=wb_,
                   construct="walkdir")
 
-    with ctx.rule("C06.ROOTS", "depth-0 entries bypass every predicate in both walkers", floor=2, kind="DOM/NOCALL") as r:
+    with ctx.rule("C06.ROOTS", "depth-0 entries bypass every predicate in both walkers; every root is handed out", floor=3, kind="DOM/NOCALL") as r:
         rs = root_switch(ser)
         if rs is None:
             r.bad("serial", "Walk::skip_entry has no `depth() == 0` test", fn=ser)
@@ -348,13 +348,38 @@ def run(ctx):
             for c in f.calls():
                 if c.is_(*PRED_FNS.values()) or c.is_(W + "::Worker::generate_work"):
                     direct.append(c)
-        pushes = [c for f in vis for c in f.calls() if c.path.endswith("Vec::push")]
+        pushes = [c for f in vis for c in f.calls() if c.path.endswith("Vec::push") or c.path.endswith("Iterator::collect")]
         if direct:
             r.bad("parallel", "WalkParallel::visit filters root paths (%s)" % direct[0].path, fn=vis[0], loc=direct[0].loc)
         elif not pushes:
             r.bad("parallel", "anchor-missing: visit pushes no root work", fn=vis[0])
         else:
             r.ok("parallel", "roots are pushed as Work without consulting a predicate", fn=vis[0])
+        # a root that cannot be turned into work is reported and the *next* root is still handed out
+        TRUNC = ("map_while", "take_while", "scan", "take", "skip", "skip_while", "step_by", "nth")
+        helpers = [facts.fn(n) for f in vis for c in f.calls() for n in c.names
+                   if n.startswith(W + "::WalkParallel::") and facts.has_fn(n) and n != vis[0].path]
+        trunc = [c for f in vis + helpers for c in f.calls() if c.path.split("::")[-1] in TRUNC and "iter" in c.path.lower()]
+        v0 = vis[0]
+        eb0 = ExprBuilder(v0)
+        hdrs0 = {h for _, h in C.back_edges(v0)}
+        qs = cond_switches(v0, lambda e: is_call(e, W + "::WalkState::is_quit"), eb0)
+        stops = []
+        for bb, te, fe, e in qs:
+            after = C.reach(v0, [fe[1]], stop_blocks=hdrs0)
+            if not (after & hdrs0) or [b_ for b_ in after if v0.blocks[b_]["term"]["k"] == "return"]:
+                stops.append(bb)
+        if trunc:
+            r.bad("parallel|all-roots", "WalkParallel::visit builds the initial work through %s: the first root that cannot be "
+                  "stat'ed ends the hand-out, every later root is silently dropped (the serial walker goes on)" % trunc[0].path.split("::")[-1],
+                  fn=v0, loc=trunc[0].loc, construct="roots")
+        elif stops:
+            r.bad("parallel|all-roots", "after reporting a root error (visitor did not ask to quit) WalkParallel::visit does not go on "
+                  "to the next root", fn=v0, construct="roots")
+        elif qs:
+            r.ok("parallel|all-roots", "root error ∧ ¬quit ⇒ next root (%d report sites)" % len(qs), fn=v0)
+        else:
+            r.ok("parallel|all-roots", "no truncating adapter over the roots", fn=v0, nontrivial=False)
 
     with ctx.rule("C06.OPTIONS", "every WalkBuilder option reaches both walkers and is read by the traversal",
                   floor=10, kind="RW") as r:
@@ -408,9 +433,14 @@ def run(ctx):
         for f in visf:
             a, _, m = field_rw(f)
             rv_ |= a | m
-        thr = facts.fn(W + "::WalkParallel::threads")
-        a, _, _ = field_rw(thr)
-        rv_ |= a
+        # ... or by the private helpers of WalkParallel that visit calls (threads(), an extracted root-work builder, …)
+        for f in list(visf):
+            for c in f.calls():
+                for n_ in c.names:
+                    if n_.startswith(W + "::WalkParallel::") and facts.has_fn(n_) and n_ != visf[0].path:
+                        for g_ in facts.with_closures(n_):
+                            a, _, m = field_rw(g_)
+                            rv_ |= a | m
         for fld in facts.struct_fields(W + "::WalkParallel"):
             if (W + "::WalkParallel", fld) in rv_:
                 r.ok("walkparallel|%s" % fld, "WalkParallel.%s read by visit" % fld, fn=visf[0])
